@@ -53,6 +53,7 @@ type Frame struct {
 	dbgVals  map[string]ssa.Value
 	collectDefers bool
 	pendingRD     []pendingRunDefers
+	curBlock      *ssa.BasicBlock
 }
 
 type pendingRunDefers struct {
@@ -305,6 +306,7 @@ func (fr *Frame) run(st *State, pc T) {
 		cur := vc.mergeStates(conds, sts)
 		fr.blockPC[b] = bpc
 		// phis
+		fr.curBlock = b
 		if li := fr.loops[b]; li != nil {
 			cur = fr.enterLoop(li, b, ins, cur, bpc)
 		} else {
@@ -462,6 +464,7 @@ func (fr *Frame) addEdge(from, to *ssa.BasicBlock, cond T, st *State) {
 
 func (fr *Frame) execBlock(b *ssa.BasicBlock, st *State, pc T) {
 	vc := fr.vc
+	fr.curBlock = b
 	for _, instr := range b.Instrs {
 		if vc.Fatal != "" {
 			return
